@@ -67,6 +67,33 @@ def run(ctx):
             la.append(secretlib.build(tpl, s))
             lb.append(secretlib.build(tpl, s2))
             ms.append((tpl, s, s2, ("", ""), ""))
+        # every line form that has text AFTER the secret, with an all-digit and a hexadecimal secret
+        for tpl, sample in g:
+            if tpl.rstrip().endswith("{}") or '"' in tpl or tpl.startswith("set community"):
+                continue
+            for cls in ("numeric", "hex"):
+                s = textgen.make_secret(rng, cls)
+                s2 = renamed(rng, s, mp)
+                la.append(secretlib.build(tpl, s))
+                lb.append(secretlib.build(tpl, s2))
+                ms.append((tpl, s, s2, ("", ""), " (template has trailing text)"))
+        # the AWS forms: a 32-character field
+        for tpl in secretlib.AWS:
+            s = "".join(rng.choice(textgen.MD5CHARS[:62] + "_") for _ in range(32))
+            s2 = "".join(rng.choice(textgen.MD5CHARS[:62] + "_") for _ in range(32))
+            ind = rng.choice(["", "  ", "\t\t"])
+            la.append(ind + tpl.replace("{}", s) + "\n")
+            lb.append(ind + tpl.replace("{}", s2) + "\n")
+            ms.append((tpl, s, s2, ("", ""), ""))
+        # two secrets recognised by the SAME pattern on one line (compact one-line blocks)
+        for tpl in ("username alice password {} ; username bob password {}", "radius-server {{ 10.0.0.1 secret \"{}\"; 10.0.0.2 secret \"{}\"; }}",
+                    "domain-password {} ; area-password {}", "snmp-server community {} RO ; snmp-server community {} RW"):
+            a, b = textgen.make_secret(rng, "text"), textgen.make_secret(rng, "text")
+            a2, b2 = renamed(rng, a, mp), renamed(rng, b, mp)
+            la.append(tpl.replace("{{", "{").replace("}}", "}").replace("{}", a, 1).replace("{}", b, 1) + "\n")
+            lb.append(tpl.replace("{{", "{").replace("}}", "}").replace("{}", a2, 1).replace("{}", b2, 1) + "\n")
+            ms.append((tpl, a, a2, ("", ""), ""))
+            la.append("!\n"), lb.append("!\n"), ms.append(("second-of-two", b, b2, ("", ""), la[-2]))
         salt = rng.choice(["s", "Q", "", "xyz"])
         pairs.append((textgen.pipe(la, flags="pl", salt=salt), textgen.pipe(lb, flags="pl", salt=salt), ms))
     cases = [p[0] for p in pairs] + [p[1] for p in pairs]
@@ -84,10 +111,15 @@ def run(ctx):
             lab = "impl"
             if textgen.classify(s) == "numeric" and tr.strip() and re.search(r"(password|passwd) (level \d+ )?(\d+ )?\{\}$", tpl):
                 lab = "numeric-then-word"            # D11
+            if tpl.startswith("snmp-server community {} RO ; snmp-server"):
+                lab = "greedy-prefix-two-secrets"    # D19
             if tpl == "enable secret level 15 5 {}":
                 lab = "reserved-word-captured"       # D12
             if x != y:
                 ctx.fail("output depends on the secret's content: same line form, secrets %r / %r of the same class" % (s, s2), {"template": tpl, "line_a": ca[11 + j], "line_b": cb[11 + j]}, [x, y], label=lab)
+            elif tpl == "second-of-two":
+                if len(s) >= 4 and s in la[j - 1]:
+                    ctx.fail("the second of two secrets recognised by one pattern on a line is still present in the output", {"line": ca[11 + j - 1]}, la[j - 1], label="impl")
             elif len(s) >= 4 and s in x and not secretlib.SCRUB in x:
                 ctx.fail("the secret value is still present in the output", {"template": tpl, "line": ca[11 + j]}, x, label=lab)
         ga, gb = oa.split("\x05")[1:], ob.split("\x05")[1:]
